@@ -287,6 +287,20 @@ Proof. intros vs. reflexivity. Qed.
 
 Lemma u_decay_no_state : no_state_like u_decay.
 Proof. intros vs. reflexivity. Qed.
+Lemma u_reset_no_state : no_state_like u_reset.
+Proof. intros vs. reflexivity. Qed.
+Lemma u_minopt_no_state : no_state_like u_minopt.
+Proof. intros vs. reflexivity. Qed.
+(* last, reset and min-or-None can return None: the key then stays in the state RDD with state None *)
+
+(* last, reset and min-or-None can return None: the key then stays in the state RDD with state None *)
+Lemma none_is_a_state :
+  state_after u_last [[(0, VInt 3); (0, VNone)]; []] 2 = [(0, VNone)] /\
+  state_after u_reset [[(0, VInt 3)]; []; [(0, VInt 1)]] 2 = [(0, VNone)] /\
+  state_after u_reset [[(0, VInt 3)]; []; [(0, VInt 1)]] 3 = [(0, VInt 1)] /\
+  state_after u_minopt [[(0, VNone); (1, VInt 2)]; [(1, VNone); (1, VInt (-1))]] 2 = [(1, VInt (-1)); (0, VNone)].
+Proof. vm_compute. repeat split. Qed.
+
 (* the other two library functions are NOT of that kind (for them only the reading from the key's first interval
    is what the code computes), and all three change the state of a key that is absent from an interval: they show
    whether the update function is called with [] *)
